@@ -326,3 +326,51 @@ func VerifH_C03_addJob() {
 		vf.Reach("inode-reused-after-start")
 	}
 }
+
+// C03.H6: files rotated by rename while file.d was down. The offsets file knows inode 1 as "app.log"; at the
+// restart that inode is found as "app.log.1" and a new "app.log" has another inode. Found in either order
+// in the start phase (the real refreshFile -> addJob): the renamed file resumes at its saved offset, the new
+// one is read from the beginning; a later notification for a known inode under yet another name creates no
+// second job and keeps the offsets.
+func VerifH_C03_renameRotation() {
+	jp := verifNewProvider()
+	jp.config.MaxFiles = 10
+	jp.config.OffsetsOp_ = offsetsOpContinue
+	verifFDs = map[*os.File]*verifFD{}
+	verifFDSize = 9
+	oldStat := verifFIino{size: 9, ino: 1}
+	newStat := verifFIino{size: 9, ino: 2}
+	oldID, newID := sourceIDByStat(oldStat, ""), sourceIDByStat(newStat, "")
+	saved := int64(1 + vf.Choose("saved-offset", 8))
+	jp.loadedOffsets = fpOffsets{oldID: {filename: "app.log", sourceID: oldID, streams: map[pipeline.StreamName]int64{"s": saved}}}
+	if vf.Choose("new-file-found-first", 2) == 1 {
+		jp.refreshFile(newStat, "app.log", "", false)
+		jp.refreshFile(oldStat, "app.log.1", "", false)
+	} else {
+		jp.refreshFile(oldStat, "app.log.1", "", false)
+		jp.refreshFile(newStat, "app.log", "", false)
+	}
+	jp.isStarted.Store(true)
+	oldJob, newJob := jp.jobs[oldID], jp.jobs[newID]
+	if oldJob == nil || newJob == nil || len(jp.jobs) != 2 {
+		vf.Fail("one-job-per-inode")
+		return
+	}
+	if vf.Param("twin", 0) == 1 {
+		vf.Assert(verifFDs[oldJob.file].pos != saved, "twin")
+		return
+	}
+	vf.Assert(verifFDs[oldJob.file].pos == saved, "renamed-file-resumes-at-the-offset-saved-for-its-inode")
+	vf.Assert(verifFDs[newJob.file].pos == 0, "new-file-under-the-old-name-is-read-from-the-beginning")
+	plugin := &Plugin{jobProvider: jp}
+	for off := int64(1); off <= 9; off++ {
+		vf.Assert(plugin.PassEvent(pipeline.VerifNewEvent(oldID, off, 1, "s")) == (off > saved), "renamed-file-passes-exactly-the-lines-after-its-saved-offset")
+		vf.Assert(plugin.PassEvent(pipeline.VerifNewEvent(newID, off, 1, "s")), "every-line-of-the-new-file-is-delivered")
+	}
+	// rotated once more while running: the same inode under another name
+	jp.refreshFile(oldStat, "app.log.2", "", false)
+	vf.Assert(len(jp.jobs) == 2 && jp.jobs[oldID] == oldJob, "rename-while-running-keeps-the-job")
+	got, ok := oldJob.offsets.Get("s")
+	vf.Assert(ok && got == saved, "rename-while-running-keeps-the-offsets")
+	vf.Reach("rotation-checked")
+}
